@@ -167,9 +167,16 @@ def _fold(node, env, funcs):
             if callee is not None and callee in funcs:
                 args = [const_eval(a, env) for a in new.args]
                 return ast.Constant(value=funcs[callee](*args))
-            if isinstance(new.func, ast.Attribute) and new.func.attr in STR_METHODS:
-                recv = const_eval(new.func.value, env)
-                if isinstance(recv, (str, bytes)):
+            if isinstance(new.func, ast.Attribute):
+                try:
+                    recv = const_eval(new.func.value, env)
+                except NotConst:
+                    recv = None
+                if isinstance(recv, (str, bytes)) and new.func.attr in STR_METHODS:
+                    args = [const_eval(a, env) for a in new.args]
+                    return ast.Constant(value=getattr(recv, new.func.attr)(*args))
+                if getattr(recv, "_sa_model", False) and not new.func.attr.startswith("_"):
+                    # a checker-supplied model object standing for a repository object (e.g. a queue)
                     args = [const_eval(a, env) for a in new.args]
                     return ast.Constant(value=getattr(recv, new.func.attr)(*args))
         except NotConst:
